@@ -19,11 +19,27 @@ EXTRA_LINES = ["Intro", "a | b", "--- | ---", "1 | 2", "--|--", "| x | y |", "|-
                "*[A]: abbr", "A", ">! s", "~sub~", "^sup^", "==m==", "^^i^^", "<b>", "&amp;", "[l](u)", "![i](u)", "`c`", "``c` d``", "word"]
 
 
+STOPS = list("\\><![_*`~^$=") + ["http:", "https:", " \n", ".", "-", "&", ";", "#"]
+
+
+def chunky(rng):
+    """a word that the speedup text rule delivers in several pieces (it stops before each of STOPS)"""
+    return "".join(rng.choice(["MAX", "path", "a", "B2", "len", "x", "HT", "ML", "amp", "copy", "lt"]) + (rng.choice(STOPS) if i < k - 1 else "")
+                   for k in [rng.randint(2, 4)] for i in range(k))
+
+
+CHUNK_TEMPLATES = ["*[{k}]: title\n\nuse {k} and {j} here {k}.\n", "*[{k}]: one\n*[{j}]: two\n\n{j} {k}{j}\n", "text[^{k}] more[^{j}]\n\n[^{k}]: note {j}\n\n[^{j}]: n\n",
+                   "[{k}]: /u\n\n[{k}] and [x][{k}] and [{j}]\n", "plain {k} &{k}; &amp{j}; {j}\n", "*{k}* **{j}** `{k}` [{k}](/{j})\n", "| {k} | {j} |\n|---|---|\n| {j} | {k} |\n",
+                   "{k}\n: {j}\n", "# {k} {j}\n\n{k}\n===\n", "- [ ] {k}\n- {j}\n", "<{k}> <a {j}> http://{k}/{j} {k}@{j}.com\n", "~{k}~ ^{j}^ =={k}== ~~{j}~~ ^^{k}^^ >!{j}!< ${k}$ [{k}({j})]\n"]
+
+
 def docs(ctx, n):
     out = []
     for _ in range(n):
         r = ctx.rng.random()
-        if r < 0.5:
+        if r < 0.12:
+            out.append(ctx.rng.choice(CHUNK_TEMPLATES).replace("{k}", chunky(ctx.rng)).replace("{j}", chunky(ctx.rng)))
+        elif r < 0.5:
             k = ctx.rng.randint(1, 7)
             lines = [ctx.rng.choice(EXTRA_LINES) if ctx.rng.random() < 0.8 else gen.md_line(ctx.rng, 5) for _ in range(k)]
             for i in range(len(lines)):
@@ -81,6 +97,9 @@ def run(ctx):
     n_rx, n_m, rx_broken, unsup = rxconf.run(ctx, per_pattern=15 if ctx.quick() else 150)
     ctx.broken += rx_broken
     ds = docs(ctx, 2500 if ctx.quick() else 40000)
+    sweep = gen.slot_sweep()
+    ctx.rng.shuffle(sweep)
+    ds += sweep[: (800 if ctx.quick() else len(sweep))]
     n = oracle(ctx, ds, 8 if ctx.quick() else 60)
     if ctx.broken and not ctx.failures:
         ctx.notes.append("search mode entered: " + "; ".join(ctx.broken)[:300])
